@@ -56,6 +56,10 @@ type dgramInTransit struct {
 	to   netip.AddrPort
 	b    []byte
 	note string
+	// srcSeq is the datagram's number at its sender (0 for injected ones);
+	// copyNo distinguishes the duplicate from the original
+	srcSeq uint64
+	copyNo int
 }
 
 type PacketNet struct {
@@ -233,10 +237,10 @@ func (nd *PacketNode) WriteTo(b []byte, addr net.Addr) (int, error) {
 		if f.Extra > 0 {
 			G.Inc("fault.datagram_reordered")
 		}
-		n.enqueue(&dgramInTransit{at: now.Add(lat + f.Extra), from: nd.addr, to: to, b: p, note: note})
+		n.enqueue(&dgramInTransit{at: now.Add(lat + f.Extra), from: nd.addr, to: to, b: p, note: note, srcSeq: srcSeq})
 		if f.Dup {
 			G.Inc("fault.datagram_duplicated")
-			n.enqueue(&dgramInTransit{at: now.Add(lat + f.DupExtra), from: nd.addr, to: to, b: append([]byte(nil), p...), note: "dup"})
+			n.enqueue(&dgramInTransit{at: now.Add(lat + f.DupExtra), from: nd.addr, to: to, b: append([]byte(nil), p...), note: "dup", srcSeq: srcSeq, copyNo: 1})
 		}
 	}
 	n.mu.Unlock()
@@ -288,10 +292,23 @@ func (nd *PacketNode) SetWriteDeadline(t time.Time) error { return nil }
 
 func (n *PacketNet) sortFlight() {
 	sort.SliceStable(n.flight, func(i, j int) bool {
-		if !n.flight[i].at.Equal(n.flight[j].at) {
-			return n.flight[i].at.Before(n.flight[j].at)
+		a, b := n.flight[i], n.flight[j]
+		if !a.at.Equal(b.at) {
+			return a.at.Before(b.at)
 		}
-		return n.flight[i].seq < n.flight[j].seq
+		// Ties (frequent: simulated time only advances when everything is idle) are
+		// broken by who sent the datagram and its number at that sender, not by the
+		// order in which the senders' goroutines happened to reach the network.
+		if c := a.from.Compare(b.from); c != 0 {
+			return c < 0
+		}
+		if a.srcSeq != b.srcSeq {
+			return a.srcSeq < b.srcSeq
+		}
+		if a.copyNo != b.copyNo {
+			return a.copyNo < b.copyNo
+		}
+		return a.seq < b.seq
 	})
 }
 
